@@ -54,23 +54,49 @@ Section TzLocal.
     let '(w, f) := l_fromutc u in (w, f, l_utcoffset w f, l_dst w f, l_tzname w f).
 End TzLocal.
 
-(* the C library instantiated by the POSIX specification itself.  What tzlocal.__init__ captures
-   comes from CPython's time module, which fills (timezone, altzone) and tzname with the pair
-   (smaller UTC offset, larger UTC offset) -- it compares the January and July zones and swaps
-   them "for the southern hemisphere" -- NOT with the (tm_isdst = 0, tm_isdst = 1) pair: for a
-   negative saving the two are exchanged. *)
-Definition tzlocal_of (r : posix) :=
-  match r.(p_dst) with
-  | None => (r.(p_off), r.(p_off), false, r.(p_name), r.(p_name))
-  | Some ds =>
-      if r.(p_off) <=? ds.(d_off) then (r.(p_off), ds.(d_off), true, r.(p_name), ds.(d_name))
-      else (ds.(d_off), r.(p_off), true, ds.(d_name), r.(p_name))
-  end.
+(* ---- the C library and CPython's time module -------------------------------------------------
+   A C library is what localtime() reports at a UTC reading: tm_isdst, tm_gmtoff (seconds EAST) and
+   tm_zone. *)
+Record libc := mkLibc { lc_isdst : Z -> bool; lc_off : Z -> Z; lc_name : Z -> list Z }.
 
-Definition tzlocal_observe_wall (r : posix) (w : Z) (f : bool) : Z * Z * list Z :=
-  let '(so, ao, dl, sn, dn) := tzlocal_of r in
-  l_observe_wall (posix_isdst r) so ao dl sn dn w f.
+(* CPython, Modules/timemodule.c init_timezone(): localtime() is SAMPLED at two instants,
+   tj = (time() / YEAR) * YEAR  ("January", YEAR = 365.25 days) and tl = tj + YEAR / 2 ("July"):
+       janzone = -gmtoff(tj); julyzone = -gmtoff(tl);
+       if (janzone < julyzone)  { timezone = julyzone; altzone = janzone; tzname = (julyname, janname) }
+       else                     { timezone = janzone;  altzone = julyzone; tzname = (janname, julyname) }
+       daylight = janzone != julyzone
+   Result, in seconds EAST: (-timezone, -altzone, daylight, tzname[0], tzname[1]).  time.timezone is
+   therefore the SMALLER of the two sampled offsets, not "the offset while tm_isdst = 0", and
+   daylight is 0 whenever the two samples agree. *)
+Definition time_module (c : libc) (tj tl : Z) : Z * Z * bool * list Z * list Z :=
+  let jo := lc_off c tj in
+  let lo := lc_off c tl in
+  if lo <? jo then (lo, jo, negb (jo =? lo), lc_name c tl, lc_name c tj)
+  else (jo, lo, negb (jo =? lo), lc_name c tj, lc_name c tl).
 
-Definition tzlocal_observe_utc (r : posix) (u : Z) : Z * bool * Z * Z * list Z :=
-  let '(so, ao, dl, sn, dn) := tzlocal_of r in
-  l_observe_utc (posix_isdst r) so ao dl sn dn u.
+(* tz.tzlocal.__init__ reads exactly these five values (tz.py: _std_offset = -time.timezone;
+   _dst_offset = -time.altzone if time.daylight else _std_offset; _tznames = time.tzname), and every
+   later call asks the C library for tm_isdst *)
+Definition tzlocal_c_observe_wall (c : libc) (tj tl : Z) (w : Z) (f : bool) : Z * Z * list Z :=
+  let '(so, ao, dl, sn, dn) := time_module c tj tl in
+  l_observe_wall (lc_isdst c) so ao dl sn dn w f.
+
+Definition tzlocal_c_observe_utc (c : libc) (tj tl : Z) (u : Z) : Z * bool * Z * Z * list Z :=
+  let '(so, ao, dl, sn, dn) := time_module c tj tl in
+  l_observe_utc (lc_isdst c) so ao dl sn dn u.
+
+(* "the C library implements the POSIX rule r": the hypothesis of the _partial theorems *)
+Definition posix_off_at (r : posix) (t : Z) : Z :=
+  match r.(p_dst) with Some ds => if posix_isdst r t then ds.(d_off) else r.(p_off) | None => r.(p_off) end.
+Definition posix_name_at (r : posix) (t : Z) : list Z :=
+  match r.(p_dst) with Some ds => if posix_isdst r t then ds.(d_name) else r.(p_name) | None => r.(p_name) end.
+
+Definition libc_implements (c : libc) (r : posix) : Prop :=
+  forall t, lc_isdst c t = posix_isdst r t /\ lc_off c t = posix_off_at r t /\ lc_name c t = posix_name_at r t.
+
+(* the executable instance used by the correspondence: the specification itself as C library *)
+Definition posix_libc (r : posix) : libc := mkLibc (posix_isdst r) (posix_off_at r) (posix_name_at r).
+
+Definition tzlocal_of (r : posix) (tj tl : Z) := time_module (posix_libc r) tj tl.
+Definition tzlocal_observe_wall (r : posix) (tj tl : Z) := tzlocal_c_observe_wall (posix_libc r) tj tl.
+Definition tzlocal_observe_utc (r : posix) (tj tl : Z) := tzlocal_c_observe_utc (posix_libc r) tj tl.
